@@ -22,7 +22,9 @@ sys.path.insert(0, os.path.join(ROOT, "encoders"))
 from verif import Q, REPO, HARN, BUILD, repo_cflags_defs, ESP_DEFS, GUARD, run_query
 import ir2c
 
-GEN = os.path.join(BUILD, "C08", "gen")
+# generated files live in a directory of their own per repo tree (a scratch worktree given by
+# VERIF_REPO must not share files with a concurrent run on /repo)
+GEN = os.path.join(BUILD, "C08", "gen" if os.path.abspath(REPO) == "/repo" else "gen_" + hashlib.sha1(os.path.abspath(REPO).encode()).hexdigest()[:8])
 CLANG = "clang-14"
 LLVM_LINK = "llvm-link-14"
 OPTS = ("O0", "Os", "O2")
@@ -54,7 +56,7 @@ ENTRIES = []
 
 
 def entry(name, harness, tus, entries, sizes, opts=OPTS, quick_opts=("Os",), real_units=None, config="host",
-          backend="cadical", timeout=240, fsarray=256, desc="", secret="", public="", cdefs=(), expect_refused=False, control=False):
+          backend="cadical", timeout=600, fsarray=256, desc="", secret="", public="", cdefs=(), expect_refused=False, control=False):
     """sizes: list of dict(tag=, defs={..}, unwind=, unwindset=[..], tier=)"""
     ENTRIES.append(dict(name=name, harness=harness, tus=list(tus), entries=list(entries), sizes=sizes, opts=opts,
                         quick_opts=quick_opts, real_units=list(real_units if real_units is not None else tus),
@@ -219,6 +221,20 @@ entry("ec_c25519_m15_mul", "C08_ec.c", ["src/ec/ec_c25519_m15.c"] + ECC, ["api_m
 entry("ec_prime_i15_mul", "C08_ec.c", ["src/ec/ec_prime_i15.c", "src/ec/ec_secp256r1.c", "src/ec/ec_secp384r1.c", "src/ec/ec_secp521r1.c"] + _int_tus(15) + ["src/codec/enc32be.c", "src/codec/dec32be.c"], ["api_mul"],
       [S("x1", 300, IMPL=2, XLEN=1, tier="thorough")], opts=("Os",), timeout=900,
       desc="ec_prime_i15 api_mul on P-256, 1-byte scalar", secret="scalar, point coordinates", public="lengths, curve, addresses")
+# ESP8266-like configuration (portable 32-bit code paths: BR_64=0, BR_LOMUL=1, no unaligned access) for the
+# implementations the ESP8266 build selects
+import copy as _copy
+for _nm in ("i15_montymul", "i15_muladd_small", "i15_modpow_opt", "ccopy", "hmac_outCT", "cbc_decrypt_md5", "aes_ct_cbcenc", "aes_ct_cbcdec", "des_ct_cbcenc",
+            "chacha20_ct", "poly1305_ctmul32", "ghash_ctmul32", "rsa_ssl_decrypt", "gcm_check_tag"):
+    _e = [x for x in ENTRIES if x["name"] == _nm][0]
+    _c = _copy.deepcopy(_e)
+    _c["name"] = _nm + "_esp"
+    _c["config"] = "esp"
+    _c["opts"] = ("Os",)
+    _c["quick_opts"] = ("Os",)
+    _c["sizes"] = [s for s in _c["sizes"] if s["tier"] == "quick"][:1]
+    _c["desc"] = _e["desc"] + " [ESP8266-like config]"
+    ENTRIES.append(_c)
 # negative controls (reported through extra_checks; they must FAIL)
 entry("aes_big_cbcenc", "C08_sym.c", [SC + "aes_big_enc.c", SC + "aes_big_cbcenc.c", SC + "aes_common.c", "src/codec/enc32be.c", "src/codec/dec32be.c"],
       ["br_aes_big_cbcenc_init", "br_aes_big_cbcenc_run"], [S("k16-n16", 70, FN=20, KL=16, NB=16)], control=True,
